@@ -35,6 +35,7 @@ class C05(Prop):
     assumptions = ["shutters carry no on/off state: device_state of shutters is not compared",
                    "amps: any one-decimal value within 0.05 of watts/220",
                    "kernel datagram loss (drops>0 in /proc/net/udp) makes a batch inconclusive, not violated"]
+    warnings_as_errors = False   # unknown models are *reported by a warning*: under an error filter that is an exception by design
     anchors = ["aioswitcher.bridge:_parse_device_from_datagram", "aioswitcher.bridge:DatagramParser.get_ip_type1",
                "aioswitcher.bridge:DatagramParser.get_ip_type2", "aioswitcher.bridge:DatagramParser.get_mac",
                "aioswitcher.bridge:DatagramParser.get_name", "aioswitcher.bridge:DatagramParser.get_shutter_position",
@@ -86,6 +87,21 @@ class C05(Prop):
         log.clear()
         zone = env.ZONES[env.sig("zone", i) % len(env.ZONES)]
         clock.set_zone(zone)     # nothing in a broadcast depends on the host zone: durations are durations
+        if env.sig("own", i) % 40 == 7:
+            # who holds what: a bridge started by a helper that keeps neither the bridge nor the consumer object around
+            descs = [gen.broadcast_desc(r, m, i * 9 + n, f"{0xC00000 + (i * 9 + n) % 0xFFFF:06x}") for n, m in enumerate(gen.MODELS)]
+            keep = bool(env.sig("own-keep", i) % 2)
+            got, sent_raw = await udp.unowned_bridge_probe(self.rig, descs, keep_bridge=keep)
+            acc.ev(len(descs))
+            acc.count("broadcasts_to_a_bridge_nobody_holds" if not keep else "broadcasts_to_a_bridge_whose_consumer_nobody_holds", len(descs))
+            how = "the bridge object and the callback's owner" if not keep else "the callback's owner"
+            if len(got) != len(descs):
+                acc.violation("delivery-count-wrong:unreferenced-" + ("bridge" if not keep else "consumer"), f"{len(descs)} well-formed broadcasts sent to a started bridge "
+                              f"({how} are referenced by nobody else, garbage was collected): {len(got)} devices delivered", {"kept_bridge": keep})
+            else:
+                for dev, d in zip(got, descs):
+                    for field, gotv, want in rb.compare_device(dev, d):
+                        acc.violation(f"field-wrong:{rb.MODELS[d['model']][2]}:{field}", f"{d['model']} (unreferenced bridge): {field} = {gotv!r}, want {want!r}", {"desc": d})
         port = self.ports[i % len(self.ports)]
         if (i // max(1, ctx["nshards"])) % 6 == 1:
             from aioswitcher.bridge import SwitcherBridge as _B
